@@ -63,6 +63,7 @@ type c09Seq struct {
 	base    *gen.Change // instances of its minus side are planted
 	indep   *gen.Change
 	extra   []string // further expression plants (%s = an atom)
+	decls   []string // further declaration plants
 }
 
 // c09SpecialSeq builds the fixed-shape sequences that need more than the chain generator offers.
@@ -139,6 +140,22 @@ func c09SpecialSeq(g *gen.G, which int) *c09Seq {
 			c2 := mk("expr", "c09-spells-the-parentheses", y, nil, "-(«y»)", "minus(«y»)")
 			return &c09Seq{changes: []*gen.Change{c1, c2}, roles: []string{"generates-under-unary", "spells-the-parentheses"}, base: c1, extra: []string{"neg(%s + b)", "neg(a * %s)"}}
 		}
+	case 7:
+		// a later (or an earlier) change of the run matches the file only where its replacement cannot stand: it is a
+		// no-op, and what the other changes did to the file stays
+		c1 := mk("expr", "c09-rewrites", x, nil, "oldLog(«x»)", "newLog(«x»)")
+		c2 := mk("expr", "c09-matches-only-inadmissible-places", nil, nil, "helperFn", "util.HelperFn")
+		c2.Comments = []string{"qualify helperFn"}
+		seq := &c09Seq{changes: []*gen.Change{c1, c2}, roles: []string{"rewrites", "matches-only-inadmissible-places"}, base: c1,
+			decls: []string{"func helperFn() {}", "type holder struct {\n\thelperFn int\n}"}}
+		switch g.R.Intn(3) {
+		case 0:
+			seq.changes, seq.roles = []*gen.Change{c2, c1}, []string{"matches-only-inadmissible-places", "rewrites"}
+		case 1:
+			c3 := mk("expr", "c09-rewrites-too", y, nil, "newLog(«y»)", "newLog(«y», 1)")
+			seq.changes, seq.roles = []*gen.Change{c1, c2, c3}, []string{"rewrites", "matches-only-inadmissible-places", "rewrites-too"}
+		}
+		return seq
 	default:
 		// a later change is guarded by an import that only an earlier change adds (and by a package clause that only
 		// an earlier change makes true)
@@ -358,6 +375,8 @@ func runC09(ctx *core.Ctx, idx int) *core.Result {
 		seq = c09SpecialSeq(g, 5)
 	case 17:
 		seq = c09SpecialSeq(g, 6)
+	case 23:
+		seq = c09SpecialSeq(g, 7)
 	}
 	// files
 	nf := 3
@@ -380,6 +399,9 @@ func runC09(ctx *core.Ctx, idx int) *core.Result {
 			for p := 0; p < 1+r.Intn(2); p++ {
 				plants = append(plants, gen.Plant{Kind: "expr", Text: fmt.Sprintf(e, g.Atom())})
 			}
+		}
+		if len(seq.decls) > 0 {
+			plants = append(plants, gen.Plant{Kind: "decl", Text: seq.decls[f%len(seq.decls)]})
 		}
 		files = append(files, fmt.Sprintf("f%d.go", f))
 		orig = append(orig, g.File(gen.FileOpts{Plants: plants}))
